@@ -64,7 +64,7 @@ fn gen_seq(rng: &mut Rng) -> Vec<HV> {
     v
 }
 
-fn check_target_seq(l: &mut Local, rng: &mut Rng) {
+pub fn check_target_seq(l: &mut Local, rng: &mut Rng) {
     let seq = gen_seq(rng);
     let sig = |i: usize, w: &str| format!("C17|target|{}|step{}|{}", w, i, seq.iter().take(i + 1).map(|h| h.text()).collect::<Vec<_>>().join(";"));
     let longs: Vec<LongFuzzyHash> = seq.iter().map(|h| LongFuzzyHash::build(h)).collect();
@@ -120,7 +120,7 @@ fn check_target_seq(l: &mut Local, rng: &mut Rng) {
     l.sample(|| J::obj().set("sequence", J::A(seq.iter().take(6).map(|h| J::s(h.text())).collect())));
 }
 
-fn check_array_seq(l: &mut Local, rng: &mut Rng) {
+pub fn check_array_seq(l: &mut Local, rng: &mut Rng) {
     let k = rng.urange(2, 30);
     let strings: Vec<Vec<u8>> = (0..k)
         .map(|_| match rng.below(5) {
